@@ -20,7 +20,7 @@ from harness import core
 from harness.props import _sched_common as SC
 
 MANIFEST_ENTRY = {
-    "text": "Lean theorems (Props/C06.lean) over the planner/schedule model, for every configuration and every multi-year history of days with arbitrary crew outcomes: requests_guarded (a routine request is issued only in a deployment year and month, with done < required for the year, no outstanding request and the plan date reached) and not_deployed_never_requested (frequency forced to 0 where the method is not deployed: never a request); done_le_required_partial (completed <= required for every site and year, by an invariant over the history, provided no carried-over survey completes in a year without requirement); all_done_when_feasible (if every request completes the day it is issued, plan dates are increasing, simulated and inside deployment months, then done = required after every full deployment year: induction over the days of the year); stationary_once_per_workable_day / C06_stationary (a deployed site is planned on every day of its calendar, observed iff workable, never twice). The full-strength statement C06_statement is proved false of the code as it stands (C06_counterexample: a request issued in the deployment month is served after it; C06_count_counterexample: a survey carried over New Year is booked on a year without requirement; C06_feasible_counterexample: the real plan for months [2,5,10] x 4 has a date in November) — known findings F12/F15, replayed on the real classes on every run. The model is tied to the real planner/schedule/work-plan/queue classes by day-by-day differential correspondence over multi-year loops; the plan hypothesis is measured on the real _generate_evenly_spaced_dates for month subsets x frequencies 1..24; the clauses are evaluated directly on component and whole-simulation traces.",
+    "text": "Lean theorems (Props/C06.lean) over the planner/schedule model, for every configuration and every multi-year history of days with arbitrary crew outcomes: requests_guarded (a routine request is issued only in a deployment year and month, with done < required for the year, no outstanding request and the plan date reached) and not_deployed_never_requested (frequency forced to 0 where the method is not deployed: never a request); done_le_required_partial (completed <= required for every site and year, by an invariant over the history, provided no carried-over survey completes in a year without requirement); all_done_when_feasible (if every request completes the day it is issued, plan dates are increasing, simulated and inside deployment months, then done = required after every full deployment year: induction over the days of the year); stationary_once_per_workable_day / C06_stationary (a deployed site is planned on every day of its calendar, observed iff workable, never twice), stationary_guard_ignores_done + stationary_every_workable_day (in a fully workable period every day is observed: 366 in a leap year), counted_on_completion_year (every kind of schedule books a completion once, on the completion day's year), not_deployed_never_planned / not_deployed_never_surveyed (never in a work plan, never counted where the method is not deployed), done_le_required_static (the count bound under the static decidable hypothesis StaticYears), calendar_partial / calendar_when_nothing_carried (only a carried request can be served outside the deployment calendar), all_done_in_year_from_quiet. The full-strength statement C06_statement is proved false of the code as it stands (C06_counterexample: a request issued in the deployment month is served after it; C06_count_counterexample: a survey carried over New Year is booked on a year without requirement; C06_feasible_counterexample: the real plan for months [2,5,10] x 4 has a date in November) — known findings F12/F15, replayed on the real classes on every run. The model is tied to the real planner/schedule/work-plan/queue classes by day-by-day differential correspondence over multi-year loops; the plan hypothesis is measured on the real _generate_evenly_spaced_dates for month subsets x frequencies 1..24; the clauses are evaluated directly on component and whole-simulation traces.",
     "design_ref": "DESIGN.md 5.6, 4.3",
     "note": "trusted: Lean kernel + propext/Classical.choice/Quot.sound; the hand-written planner/schedule model (tied by sampled correspondence, not proof); dates are inputs of the model (year/month/day of each simulated day, taken from datetime.date in the harness); the evenly spaced plan dates are an input list regenerated from the real code on every run; crew outcomes are inputs; harness adapters and stubs",
     "technique": "Lean 4 invariant / induction proofs over the planner and schedule model + differential correspondence with the real classes over multi-year day loops + measured plan hypothesis + direct oracle on component and whole-run traces",
@@ -70,9 +70,15 @@ def oracle_trace(ctx, case, static, trace, feasible=False):
             # counter dict does not; otherwise the completion booking
             guard = any(y in st["dep_years"] and y not in st["sim_years"] and m in st["months"]
                         and not prev[st["site"]]["queued"] for st in static)
-            ctx.violate(SIG_KEY_GUARD if guard else SIG_KEY_DONE,
-                        f"KeyError on {rec['date']}: year not in the planner's counter dict "
-                        f"{static[0]['sim_years']}", inp)
+            carried = any(y not in st["sim_years"] and prev[st["site"]]["queued"] for st in static)
+            if guard:
+                sig = SIG_KEY_GUARD
+            elif carried:
+                sig = SIG_KEY_DONE
+            else:  # a KeyError that the missing counter year does not explain is not the known finding
+                sig = "C06:crash:KeyError:unexpected"
+            ctx.violate(sig, f"KeyError on {rec['date']}: planner counter years {static[0]['sim_years']}, "
+                        f"outstanding {[i for i, v in prev.items() if v['queued']]}", inp)
             break
         if rec.get("n_puts") is not None and rec["n_puts"] != len(rec["issued"]):
             ctx.violate("C06:guard:request-without-flag-change",
@@ -451,6 +457,23 @@ def run_loop_cases(ctx, cases, feasible=False, tag="loop", chunk=40):
             if k is not None:
                 ctx.nontrivial.add(k)
             # hypothesis hit rates of the partial theorems
+            yrs = {r["date"][0] for r in trace}
+            dep = [st for st in static if st["rs"]]
+            ctx.count("hyp:static_years_cases_total")
+            if all(yy in st["dep_years"] and yy in st["sim_years"] for st in dep for yy in yrs):
+                ctx.count("hyp:static_years_cases_hold")
+            ok_c = True
+            for r in trace:
+                if r["crash"]:
+                    ok_c = False
+                    break
+                for o in r["outcomes"]:
+                    if o[1] == "C" and required_of(next(st for st in static if st["site"] == o[0]), r["date"][0]) <= 0 \
+                            and case["kind"] != "stationary":
+                        ok_c = False
+            ctx.count("hyp:completes_ok_cases_total")
+            if ok_c:
+                ctx.count("hyp:completes_ok_cases_hold")
             ctx.count("hyp:plan_hypothesis_sites", sum(1 for st in static if st["rs"] and plan_hypothesis(st)))
             ctx.count("hyp:planner_sites", sum(1 for st in static if st["rs"]))
             crash = trace[-1]["crash"] if trace else None
@@ -566,7 +589,12 @@ def run(ctx):
                     "first_issue_day": summ["first_issue"], "final_done": summ["final_done"]})
     wholerun_oracle(ctx)
     hp, hs = ctx.counts.get("hyp:plan_hypothesis_sites", 0), ctx.counts.get("hyp:planner_sites", 0)
-    ctx.extra["hypothesis_hit_rate"] = {"plan_hypothesis_of_all_done_when_feasible": [hp, hs]}
+    g = ctx.counts.get
+    ctx.extra["hypothesis_hit_rate"] = {
+        "plan_hypothesis_of_all_done_when_feasible (planners)": [hp, hs],
+        "StaticYears of done_le_required_static (histories)": [g("hyp:static_years_cases_hold", 0), g("hyp:static_years_cases_total", 0)],
+        "CompletesOK of done_le_required_partial (histories)": [g("hyp:completes_ok_cases_hold", 0), g("hyp:completes_ok_cases_total", 0)],
+    }
     ctx.assumptions.append("dates of the simulated days and the evenly spaced plan dates are inputs of the model "
                            "(taken from datetime.date / the real generator on every run)")
 
